@@ -13,7 +13,7 @@ from .smt import (T, INT, BOOL, STR, IntV, BoolV, StrV, TRUE, FALSE, And, Or, No
                   Implies, Ite, Eq, Ne, Add, Sub, Lt, Le, Gt, Ge, Len, Concat)
 from .vals import (Undecided, V, VInt, VBool, VStr, VNone, NONE, VVal, VSeq, VTuple,
                    VRef, VFunc, VPy, VBound, VExc, Raised, HList, HPyList, HDict,
-                   HSet, HInst, HObjList, parse_type, sort_of, wrap)
+                   HSet, HInst, HObjList, HMap, parse_type, sort_of, wrap)
 from .symexec import Engine, State, VOptSym, UNBOUND, repo_root
 from . import contracts as C
 
@@ -201,7 +201,7 @@ class Exec(Engine):
                 if self.old_state is None:
                     raise Undecided('old() without an entry state', node)
                 v = self.ev1(node.args[0], self.old_state)
-                return [(v, st)]
+                return [(self.snapshot(v, self.old_state), st)]
             if f.id in ('all', 'any') and len(node.args) == 1 and isinstance(node.args[0], (ast.GeneratorExp, ast.ListComp)):
                 return self.quantified(f.id, node.args[0], st, node)
             if f.id == 'implies' and self.pure:
@@ -210,6 +210,14 @@ class Exec(Engine):
                 return [(VBool(Implies(a, b)), st)]
             if f.id in ('exists', 'forall') and self.pure:
                 return self.binder_call(f.id, node, st)
+            if f.id == 'before' and self.pure:
+                if self.iter_state is None:
+                    raise Undecided('before() outside a loop body postcondition', node)
+                b = self.iter_state.copy()
+                b.frames, b.parents, b.cur = st.frames, st.parents, st.cur
+                return [(self.snapshot(self.ev1(node.args[0], b), b), st)]
+            if f.id in ('ev_count', 'ev_arg', 'ev_outcome', 'ev_names') and self.pure:
+                return [(self.event_query(f.id, node, st), st)]
         out = []
         for fv, s in self.ev(f, st):
             if isinstance(fv, Raised):
@@ -241,6 +249,59 @@ class Exec(Engine):
                         raise Undecided('**kwargs call', node)
                     kwargs[k.arg] = v
                 out.extend(self.call_value(fv, args, kwargs, s2, node))
+        return out
+
+    iter_state = None
+
+    def snapshot(self, v, st):
+        """Value of v in state st as an immutable value (lists/sets by content, instances by identity)."""
+        if isinstance(v, VRef):
+            o = st.heap.get(v.loc)
+            if isinstance(o, HList):
+                return VSeq(o.seq, o.elem)
+            if isinstance(o, HPyList) and o.items and all(isinstance(i, (VStr, VInt, VBool)) for i in o.items):
+                seq, elem = self.seq_of(v, st)
+                return VSeq(seq, elem)
+            if isinstance(o, HObjList):
+                return VInt(o.n) if False else v
+        return v
+
+    def events_of(self, st):
+        """Events logged since the start of the current loop iteration (or function entry)."""
+        start = st.ghost.get('__iter_event_start__', 0)
+        return st.events[start:]
+
+    def event_query(self, kind, node, st):
+        args = [self.ev1(a, st) for a in node.args]
+        name = args[0].t.lit[1]
+        evs = [e for e in self.events_of(st) if e['name'] == name or e['name'].endswith(':' + name) or e['name'].endswith('.' + name)]
+        if kind == 'ev_count':
+            return VInt(IntV(len(evs)))
+        k = args[1].t.lit[1]
+        if k >= len(evs) or k < -len(evs):
+            raise Undecided('event %s #%d does not exist on this path (guard the clause with ev_count)' % (name, k), node)
+        if kind == 'ev_outcome':
+            return VStr(StrV(evs[k]['outcome']))
+        field = args[2].t.lit[1]
+        if field not in evs[k]['args']:
+            raise Undecided('event %s has no argument %s' % (name, field), node)
+        return evs[k]['args'][field]
+
+    def log_event(self, st, name, args, outcome):
+        st.events.append({'name': name, 'args': dict(args), 'outcome': outcome})
+
+    def ev_Dict(self, node, st):
+        keys = []
+        for k in node.keys:
+            if not (isinstance(k, ast.Constant) and isinstance(k.value, str)):
+                raise Undecided('dict literal with non-constant key', node)
+            keys.append(k.value)
+        out = []
+        for vals, s in self.ev_list(node.values, st):
+            if isinstance(vals, Raised):
+                out.append((vals, s))
+            else:
+                out.append((s.alloc(HDict(dict(zip(keys, vals)))), s))
         return out
 
     def unpack(self, v, n, st, node=None):
@@ -442,7 +503,7 @@ class Exec(Engine):
             o = st.heap[recv.loc]
             if isinstance(o, (HList, HPyList, HObjList)):
                 return self.call_model('list.' + name, [recv] + args, kwargs, st, node)
-            if isinstance(o, HDict):
+            if isinstance(o, (HDict, HMap)):
                 return self.call_model('dict.' + name, [recv] + args, kwargs, st, node)
             if isinstance(o, HSet):
                 return self.call_model('set.' + name, [recv] + args, kwargs, st, node)
@@ -461,6 +522,9 @@ class Exec(Engine):
         return m(self, args, kwargs, st, node)
 
     def call_method_on_instance(self, ref, o, name, args, kwargs, st, node):
+        im = self.method_models.get('%s.%s' % (o.cls, name))
+        if im is not None:
+            return im(self, [ref] + args, kwargs, st, node)
         cls = self.real_class(o.cls)
         if cls is None:
             raise Undecided('unknown class %s' % o.cls, node)
@@ -637,6 +701,8 @@ class Exec(Engine):
                     exc = s.live_exc if cls is None else VExc(cls, {}, tag='callee:' + c.func)
                     if exc is None:
                         exc = VExc(Exception, {}, tag='live')
+                    if c.log:
+                        self.log_event(s, c.qualname, bound, 'raise:' + ('LIVE' if cls is None else cls.__name__))
                     out.append((Raised(exc), s))
             # normal outcome
             for g in normal_guard:
@@ -649,6 +715,8 @@ class Exec(Engine):
             b2['result'] = result
             for name, text in c.ensures:
                 st.assume(self.clause(text, st, b2, old=pre_state))
+            if c.log:
+                self.log_event(st, c.qualname, b2, 'normal')
             out.append((result, st))
             return out
         finally:
@@ -669,7 +737,11 @@ class Exec(Engine):
         return out
 
     def havoc_modifies(self, c, bound, st, node):
-        for expr in c.modifies:
+        for expr in (c.modifies or ()):
+            if expr in c.globals:
+                modname, attr = expr.rsplit('.', 1)
+                st.globals[(modname, attr)] = self.fresh_result(parse_type(c.globals[expr]), 'hv_' + attr, st)
+                continue
             self.havoc_expr(expr, bound, st, node)
 
     def havoc_expr(self, expr, bound, st, node, base='hv'):
@@ -878,6 +950,14 @@ class Exec(Engine):
                 f[t.attr] = v
                 st.heap[owner.loc] = HInst(o.cls, f)
                 return
+            import types as _types
+            if isinstance(owner, VPy) and isinstance(owner.obj, _types.ModuleType):
+                key = (owner.obj.__name__, t.attr)
+                declared = self.cur_contract.globals if self.cur_contract else {}
+                if '%s.%s' % key not in declared and key not in st.globals:
+                    raise Undecided('write to undeclared process-global %s.%s (declare it in globals=)' % key, node)
+                st.globals[key] = v
+                return
             raise Undecided('attribute assignment on %r' % (owner,), node)
         if isinstance(t, ast.Subscript):
             owner = self.ev1(t.value, st)
@@ -903,6 +983,11 @@ class Exec(Engine):
                     st.heap[owner.loc] = HDict(e)
                     return
                 raise Undecided('dict store with symbolic key (fork it with an if/contract)', node)
+            if isinstance(o, HMap) and isinstance(key, VInt):
+                vt = self.coerce(v, o.vty, st)
+                st.heap[owner.loc] = HMap(smt.mk('store', [o.present, key.t, TRUE], o.present.sort),
+                                          smt.mk('store', [o.vals, key.t, vt], o.vals.sort), o.vty)
+                return
             if isinstance(o, HPyList) and isinstance(key, VInt) and key.t.lit is not None:
                 items = list(o.items)
                 items[key.t.lit[1]] = v
@@ -923,6 +1008,24 @@ class Exec(Engine):
                     raise Undecided('__setitem__ forks', node)
                 return
         raise Undecided('subscript store on %r' % (owner,), node)
+
+    def coerce(self, v, ty, st):
+        """Term of the sort of ty for value v (Optional values are injected into Val when ty is val)."""
+        if ty[0] == 'val':
+            if isinstance(v, VVal):
+                return v.t
+            if isinstance(v, VOptSym) and isinstance(v.val, VStr):
+                return Ite(v.isnone, self.val_const(None), self.model_app('val_of_str', [v.val.t], 'Val'))
+            if isinstance(v, VStr):
+                self.ctx.sort('Val')
+                return self.model_app('val_of_str', [v.t], 'Val')
+            if isinstance(v, VNone):
+                return self.val_const(None)
+            if isinstance(v, VPy):
+                return self.val_const(v.obj)
+        if getattr(v, 'ty', None) == ty:
+            return v.t
+        raise Undecided('cannot store %r as %r' % (v, ty))
 
     def exec_AugAssign(self, node, st):
         t = node.target
@@ -1405,19 +1508,30 @@ class Exec(Engine):
         if self.feasible(s_body, Lt(i, n)):
             s_body.assume(Lt(i, n))
             self.assign_target(node.target, getter(i, s_body), s_body, node)
+            s_body.ghost['__iter_event_start__'] = len(s_body.events)
+            iter_snapshot = s_body.copy()
             for name, text in spec.body_facts:
                 g = self.inv_clause(text, s_body, old)
                 self.oblige('inv-fact', '%s@loop%d' % (name, ordn), s_body, g, node)
                 s_body.assume(g)
             for kind, payload, s2 in self.run_block(node.body, s_body):
                 if kind in ('normal', 'continue'):
+                    # relational postconditions of one iteration (before(e) = value at iteration start)
+                    self.iter_state = iter_snapshot
+                    try:
+                        for name, text in spec.body_post:
+                            self.oblige('step', '%s@loop%d' % (name, ordn), s2, self.inv_clause(text, s2, old), node)
+                    finally:
+                        self.iter_state = None
                     s2.ghost[idx] = VInt(Add(i, IntV(1)))
                     self.bind_ghosts(spec, s2)
                     for name, text in spec.invariants:
                         self.oblige('inv-keep', '%s@loop%d' % (name, ordn), s2, self.inv_clause(text, s2, old), node)
                 elif kind == 'break':
+                    s2.ghost['__last_iter__'] = iter_snapshot
                     out.append(('normal', None, s2))
                 else:
+                    s2.ghost['__last_iter__'] = iter_snapshot
                     out.append((kind, payload, s2))
         return out
 
@@ -1473,34 +1587,101 @@ class Exec(Engine):
         raise Undecided('while loop without invariant', node)
 
     # ------------------------------------------------------- verification
+    def union_fields(self, tyname, seen=None):
+        """Union-typed record fields reachable from a type: [('Cls.field', n_alternatives)]."""
+        out = []
+        ty = parse_type(tyname) if isinstance(tyname, str) else tyname
+        seen = seen if seen is not None else set()
+        if ty[0] in ('opt', 'list'):
+            return self.union_fields(ty[1], seen)
+        if ty[0] == 'obj' and ty[1] in C.RECORDS and ty[1] not in seen:
+            seen.add(ty[1])
+            for f, fty in C.RECORDS[ty[1]].items():
+                p = parse_type(fty)
+                if p[0] == 'union':
+                    out.append(('%s.%s' % (ty[1], f), len(p[1])))
+                    for alt in p[1]:
+                        out.extend(self.union_fields(alt, seen))
+                else:
+                    out.extend(self.union_fields(p, seen))
+        return out
+
     def entry_states(self, c, fnode, fn):
-        """Initial symbolic states for the function: one per Optional-None choice."""
-        sts = [State()]
-        fid = sts[0].new_frame(None)
-        sts[0].cur = fid
+        """Initial symbolic states: one per choice of Optional-None parameters and union alternatives."""
+        import itertools
+        ufields = []
+        for tyname in c.params.values():
+            for item in self.union_fields(tyname):
+                if item not in ufields:
+                    ufields.append(item)
         defaults = self.defaults_of(fn) if fn is not None else {}
         names = [a.arg for a in fnode.args.posonlyargs + fnode.args.args + fnode.args.kwonlyargs]
-        for name in names:
-            tyname = c.params.get(name)
-            nxt = []
+        result = []
+        for combo in itertools.product(*[range(n) for _, n in ufields]):
+            self.union_choice = {name: k for (name, _), k in zip(ufields, combo)}
+            sts = [State()]
+            fid = sts[0].new_frame(None)
+            sts[0].cur = fid
+            for name in names:
+                tyname = c.params.get(name)
+                nxt = []
+                for s in sts:
+                    if tyname is None:
+                        if name in defaults:
+                            s.frames[fid][name] = self.lift(defaults[name], s)
+                            nxt.append(s)
+                            continue
+                        raise Undecided('contract %s gives no type for parameter %s' % (c.qualname, name))
+                    ty = parse_type(tyname)
+                    alts = ty[1] if ty[0] == 'union' else [ty]
+                    for k, alt in enumerate(alts):
+                        s_k = s if k == len(alts) - 1 else s.copy()
+                        if alt[0] == 'opt':
+                            s2 = s_k.copy()
+                            s2.frames[fid][name] = NONE
+                            s_k.frames[fid][name] = self.fresh(alt[1], name, s_k)
+                            nxt.extend([s_k, s2])
+                        else:
+                            s_k.frames[fid][name] = self.fresh(alt, name, s_k)
+                            nxt.append(s_k)
+                sts = nxt
             for s in sts:
-                if tyname is None:
-                    if name in defaults:
-                        s.frames[fid][name] = self.lift(defaults[name], s)
-                        nxt.append(s)
-                        continue
-                    raise Undecided('contract %s gives no type for parameter %s' % (c.qualname, name))
-                ty = parse_type(tyname)
-                if ty[0] == 'opt':
-                    s2 = s.copy()
-                    s2.frames[fid][name] = NONE
-                    s.frames[fid][name] = self.fresh(ty[1], name, s)
-                    nxt.extend([s, s2])
-                else:
-                    s.frames[fid][name] = self.fresh(ty, name, s)
-                    nxt.append(s)
-            sts = nxt
-        return sts
+                for gname, gty in c.globals.items():
+                    modname, attr = gname.rsplit('.', 1)
+                    s.globals[(modname, attr)] = self.fresh_result(parse_type(gty), attr, s)
+                s.ghost['__union__'] = dict(self.union_choice)
+            result.extend(sts)
+        return result
+
+    def rec_element(self, rl, i, st):
+        """Read-only view of element i of a symbolic list of records: field f is (f_arr i)."""
+        cache = st.ghost.setdefault('__views__', {})
+        key = (rl.base, i.s)
+        if key in cache and cache[key] in st.heap:
+            return VRef(cache[key])
+        fields = C.RECORDS.get(rl.cls)
+        if fields is None:
+            raise Undecided('no record declaration for %s' % rl.cls)
+        vals = {}
+        for f, fty in fields.items():
+            p = parse_type(fty)
+            vals[f] = self.field_fn(rl.base, f, p, i, st)
+        ref = st.alloc(HInst(rl.cls, vals, view=(rl.base, i)))
+        st.ghost['__views__'] = dict(cache)
+        st.ghost['__views__'][key] = ref.loc
+        return ref
+
+    def field_fn(self, base, f, p, i, st):
+        from .symexec import VOptSym
+        name = '%s_%s' % (base.replace('!', '_'), f)
+        if p[0] == 'opt':
+            isn = self.ctx.app(self.ctx.fun(name + '_isnone', [INT], BOOL), i)
+            return VOptSym(isn, self.field_fn(base, f + '_v', p[1], i, st))
+        if p[0] in ('int', 'bool', 'str', 'val'):
+            return wrap(self.ctx.app(self.ctx.fun(name, [INT], sort_of(p)), i), p)
+        if p[0] == 'list' and p[1][0] in ('int', 'bool', 'str'):
+            return st.alloc(HList(self.ctx.app(self.ctx.fun(name, [INT], sort_of(p)), i), p[1]))
+        raise Undecided('record list field %s of type %r' % (f, p))
 
     def verify_function(self, c):
         """Generate all obligations of one function against its contract."""
@@ -1534,6 +1715,9 @@ class Exec(Engine):
             entry = self.entry_state
             for kind, payload, s in self.run_block(fnode.body, st):
                 self.stats['paths'] += 1
+                self.iter_state = s.ghost.get('__last_iter__')
+                if c.modifies is not None:
+                    self.check_frame(c, entry, s, params, fnode, kind)
                 if kind in ('normal', 'return'):
                     result = NONE if kind == 'normal' else payload
                     b = dict(params)
@@ -1549,6 +1733,93 @@ class Exec(Engine):
                 else:
                     raise Undecided('break/continue escaped %s' % c.qualname)
         return self.obligations[n_before:]
+
+    def check_frame(self, c, entry, s, params, fnode, kind):
+        """Frame obligations: every heap object / global cell that existed at entry and is not named
+        by ``modifies`` is unchanged at this exit."""
+        allowed_locs = set()
+        allowed_fields = set()
+        allowed_globals = set()
+        for expr in c.modifies:
+            if expr in c.globals:
+                key = tuple(expr.rsplit('.', 1))
+                allowed_globals.add(key)
+                if isinstance(entry.globals.get(key), VRef):
+                    allowed_locs.add(entry.globals[key].loc)    # the object the cell refers to may be mutated
+                continue
+            n = ast.parse(expr, mode='eval').body
+            es = self.clause_state(entry, params)
+            self.pure += 1
+            try:
+                if isinstance(n, ast.Attribute):
+                    owner = self.ev1(n.value, es)
+                    if isinstance(owner, VRef) and isinstance(entry.heap.get(owner.loc), HInst):
+                        allowed_fields.add((owner.loc, n.attr))
+                        # the object a modifiable field points to may be mutated as well
+                        tgt = entry.heap[owner.loc].fields.get(n.attr)
+                        if isinstance(tgt, VRef):
+                            allowed_locs.add(tgt.loc)
+                        continue
+                v = self.ev1(n, es)
+            finally:
+                self.pure -= 1
+            if isinstance(v, VRef):
+                allowed_locs.add(v.loc)
+        tag = '' if kind in ('normal', 'return') else '@raise'
+
+        def same(a, b):
+            if a is b:
+                return TRUE
+            if isinstance(a, VRef) and isinstance(b, VRef):
+                return BoolV(a.loc == b.loc)
+            if hasattr(a, 't') and hasattr(b, 't') and type(a) is type(b):
+                return Eq(a.t, b.t)
+            try:
+                return self.v_is(a, b, s)
+            except Undecided:
+                return FALSE
+        for loc, o0 in entry.heap.items():
+            o1 = s.heap.get(loc)
+            if o1 is o0 or loc in allowed_locs:
+                continue
+            name = 'obj%d' % loc
+            if isinstance(o0, HInst) and isinstance(o1, HInst):
+                for f in sorted(set(o0.fields) | set(o1.fields)):
+                    if (loc, f) in allowed_fields:
+                        continue
+                    a, b = o0.fields.get(f), o1.fields.get(f)
+                    if a is None or b is None:
+                        g = FALSE
+                    else:
+                        g = same(a, b)
+                    if g.lit is not None and g.lit[1]:
+                        continue
+                    self.oblige('frame', '%s.%s%s' % (o0.cls, f, tag), s, g, fnode,
+                                note='field %s of a %s object is not in modifies' % (f, o0.cls))
+            elif isinstance(o0, HList) and isinstance(o1, HList):
+                self.oblige('frame', name + tag, s, Eq(o0.seq, o1.seq), fnode, note='list not in modifies')
+            elif isinstance(o0, HSet) and isinstance(o1, HSet):
+                self.oblige('frame', name + tag, s, Eq(o0.arr, o1.arr), fnode, note='set not in modifies')
+            elif isinstance(o0, HMap) and isinstance(o1, HMap):
+                self.oblige('frame', name + tag, s, And(Eq(o0.present, o1.present), Eq(o0.vals, o1.vals)), fnode)
+            elif isinstance(o0, HDict) and isinstance(o1, HDict):
+                if set(o0.entries) != set(o1.entries):
+                    self.oblige('frame', name + '-keys' + tag, s, FALSE, fnode, note='dict key set changed')
+                else:
+                    for k in o0.entries:
+                        g = same(o0.entries[k], o1.entries[k])
+                        if not (g.lit is not None and g.lit[1]):
+                            self.oblige('frame', '%s[%s]%s' % (name, k, tag), s, g, fnode, note='dict entry not in modifies')
+            else:
+                self.oblige('frame', name + tag, s, FALSE, fnode, note='object changed shape')
+        for key, v0 in entry.globals.items():
+            if key in allowed_globals:
+                continue
+            v1 = s.globals.get(key)
+            g = same(v0, v1) if v1 is not None else FALSE
+            if not (g.lit is not None and g.lit[1]):
+                self.oblige('frame', '%s.%s%s' % (key[0], key[1], tag), s, g, fnode,
+                            note='process-global %s.%s is not in modifies' % key)
 
     def check_raise(self, c, exc, s, params, entry, fnode):
         b = dict(params)
